@@ -28,7 +28,7 @@ PROPS = {
 PROPS["C10"] = {
     "harness": {"kind": "cmd", "cmd": "c10"},
     "extra_harnesses": [{"cmd": "nodewire", "tag": "nodewire"}],
-    "level_text": "Theorems for every natural-number cap (no 64-bit bound) and every environment: a submission happens only for a pending target; the replacement has the target's nonce, the client's chain id, value 0, empty data, gas 21000, destination = own address, tip = floor(110*max(tip_o,tip_s)/100) >= both tips, feeCap = max(price_o,feeCap_o)+tip >= feeCap_o+tip; any other lookup answer or a failing call yields an error and no submission. The literals 110/100/21000/0 are regenerated from CancelTx's source and pinned by a theorem. The model is tied to the real EvmClient.CancelTx over a scripted chain node (targets sent through the client first or foreign, legacy and dynamic-fee, boundary and >64-bit caps, every fault). Also: cancelling a cancellation the same client made earlier (the replacement it submitted is what the node reports).",
+    "level_text": "Theorems for every natural-number cap (no 64-bit bound) and every environment: a submission happens only for a pending target; the replacement has the target's nonce, the client's chain id, value 0, empty data, gas 21000, destination = own address, tip = floor(110*max(tip_o,tip_s)/100) >= both tips, feeCap = max(price_o,feeCap_o)+tip >= feeCap_o+tip; any other lookup answer or a failing call yields an error and no submission. The literals 110/100/21000/0 are regenerated from CancelTx's source and pinned by a theorem. The model is tied to the real EvmClient.CancelTx over a scripted chain node (targets sent through the client first or foreign, legacy and dynamic-fee, boundary and >64-bit caps, every fault). Also: cancelling a cancellation the same client made earlier (the replacement it submitted is what the node reports). Theorems C10_cancel_of_cancellation and C10_cancel_chain: along a chain of cancellations of any length the nonce is the original's, each replacement outbids the one before it by 110 % against the tip suggested at that moment, and the fee cap covers the previous fee cap plus the new tip.",
     "level_note": "Trusted: Lean kernel; differential harness as evidence model = code; go-ethereum types.Transaction accessors and London signer; mockevm. The signed raw transaction reaching the stub node is decoded, so chain id and sender are observed, not assumed.",
     "nontrivial_rule": "distinct (tag, model observation) pairs; tag = lookup kind (+tracked when the target was first sent through the client)",
     "assumptions": ["TransactionByHash's (tx, isPending, err) triple is the only source of the target's state"],
@@ -38,7 +38,7 @@ PROPS["C08"] = {
     "harness": {"kind": "overlay", "pkg": "pkg/evmclient", "pkgname": "evmclient",
                 "files": ["evmclient/stub_test.go", "evmclient/c08_test.go"], "test": "TestVerifC08"},
     "extra_harnesses": [{"cmd": "nodewire", "tag": "nodewire"}],
-    "level_text": "Theorem by induction over arbitrary operation lists (sends with any pending answer or failure and any failing call, monitor updates, restarts): every successfully submitted nonce n satisfies max(prev+1, own pending answer) <= n <= max(prev+1, largest pending answer since the previous success) and n <= highest confirmed nonce reported + 1024 (literal; the window constant is regenerated from the source). Corollaries proved on event lists: strictly increasing within a lifetime, consecutive when nothing failed/intervened, a failed request consumes no nonce, restart monotonicity under the (necessary, witnessed) fresh-answer hypothesis. The model is tied to the real EvmClient.Send + real watch loop over a scripted chain node with in-package access. Faults include submissions that fail with the caller's context error or a transport error, and monitor rounds whose confirmed-nonce query fails while the pending-nonce query answers.",
+    "level_text": "Theorem by induction over arbitrary operation lists (sends with any pending answer or failure and any failing call, monitor updates, restarts): every successfully submitted nonce n satisfies max(prev+1, own pending answer) <= n <= max(prev+1, largest pending answer since the previous success) and n <= highest confirmed nonce reported + 1024 (literal; the window constant is regenerated from the source). Corollaries proved on event lists: strictly increasing within a lifetime, consecutive when nothing failed/intervened, a failed request consumes no nonce, restart monotonicity under the (necessary, witnessed) fresh-answer hypothesis. The model is tied to the real EvmClient.Send + real watch loop over a scripted chain node with in-package access. Faults include submissions that fail with the caller's context error or a transport error, and monitor rounds whose confirmed-nonce query fails while the pending-nonce query answers. That failed round is an operation of the model (C08_failed_monitor_round_is_invisible).",
     "level_note": "Trusted: Lean kernel; differential harness; atomicity of Send (whole body under c.mtx) and of the monitor's atomic word are modelling assumptions; the first is exercised on every run by sends overlapping in time (the first is held inside its gas-estimate call while the second arrives), both under -race in the thorough tier. Restart: the client persists nothing, so cross-restart monotonicity is proved under the stated environment hypothesis.",
     "nontrivial_rule": "distinct (tag, model event list) pairs; a sequence is non-trivial when it contains at least one send",
     "assumptions": ["Send is serialised by the client's mutex (one atomic step per request)",
@@ -124,7 +124,7 @@ PROPS["C13"] = {
     "harness": {"kind": "overlay", "pkg": "pkg/p2p/libp2p", "pkgname": "libp2p",
                 "files": ["libp2p/c04_test.go", "libp2p/timers_test.go", "libp2p/c13_test.go"], "test": "TestVerifC13"},
     "agree": _c13_agree,
-    "level_text": "Theorems (byte level, for every payload up to the frame limit, every status code < 2^31 and message, every sequence of writes, any chunking since the reader consumes the concatenation): varint, length-delimited-field and google.rpc.Status round trips; a data envelope decodes as data with the same bytes and never as an error, an error envelope decodes as an error with the same code and message and never as data; readAll(concat(frames of writes)) = the written items in order; the empty envelope is rejected; an oversize length prefix is rejected. Tied to the real stream/metadataStream over an in-memory byte stream with adversarial chunkings: all message types of the protocols, all 17 status codes, sizes around varint boundaries and exactly at/below/above the 8 MiB limit, malformed envelopes, header maps (through the real metadataStream; protobuf library trusted for their content). Wire bytes produced by the Go code are compared with the model's encoder byte for byte. Also: messages carrying unknown fields, several writers on one stream behind a transport that is not draining (every message read exactly once, intact), and handlers that return their verdict or read the peer's message only after having run longer than every real-time bound the package mentions.",
+    "level_text": "Theorems (byte level, for every payload up to the frame limit, every status code < 2^31 and message, every sequence of writes, any chunking since the reader consumes the concatenation): varint, length-delimited-field and google.rpc.Status round trips; a data envelope decodes as data with the same bytes and never as an error, an error envelope decodes as an error with the same code and message and never as data; readAll(concat(frames of writes)) = the written items in order; the empty envelope is rejected; an oversize length prefix is rejected. Tied to the real stream/metadataStream over an in-memory byte stream with adversarial chunkings: all message types of the protocols, all 17 status codes, sizes around varint boundaries and exactly at/below/above the 8 MiB limit, malformed envelopes, header maps (through the real metadataStream; protobuf library trusted for their content). Wire bytes produced by the Go code are compared with the model's encoder byte for byte. Also: messages carrying unknown fields, several writers on one stream behind a transport that is not draining (every message read exactly once, intact), and handlers that return their verdict or read the peer's message only after having run longer than every real-time bound the package mentions. Theorem C13_concurrent_writers: frames are written under the stream's lock, so for every permutation in which concurrent writers win it the reads are exactly that permutation of the written messages.",
     "level_note": "Trusted: Lean kernel; harness; protobuf marshal/unmarshal of the inner messages and of structpb header maps; msgio. An error frame with code OK reads as success-without-data (outside the claim, modelled); envelopes with several occurrences of the oneof members follow protobuf merge rules (outside the model, only no-panic compared).",
     "nontrivial_rule": "distinct (tag, chunking, model read list) triples",
     "assumptions": ["the byte stream below the framing layer is reliable and ordered (libp2p stream contract)"],
